@@ -661,3 +661,87 @@ func (e *Engine) AlwaysReaches(hit func(site ssa.CallInstruction) bool, depth in
 	}
 	return set
 }
+
+// exprKey renders a side-effect-free expression tree as a canonical string so
+// that two separately computed SSA values (go/ssa does no CSE) can be
+// recognised as the same source expression. Empty = not a simple expression.
+func exprKey(v ssa.Value) string { return exprKeyD(v, 0) }
+
+func exprKeyD(v ssa.Value, d int) string {
+	if d > 8 || v == nil {
+		return ""
+	}
+	v = stripConv(v)
+	switch x := v.(type) {
+	case *ssa.Parameter:
+		return "p:" + x.Name()
+	case *ssa.Const:
+		if x.Value == nil {
+			return "nil"
+		}
+		return "c:" + x.Value.ExactString()
+	case *ssa.FreeVar:
+		return "fv:" + x.Name()
+	case *ssa.Alloc:
+		return "a:" + x.Name()
+	case *ssa.UnOp:
+		if x.Op == token.MUL {
+			k := exprKeyD(x.X, d+1)
+			if k == "" {
+				return ""
+			}
+			return "*" + k
+		}
+		k := exprKeyD(x.X, d+1)
+		if k == "" {
+			return ""
+		}
+		return x.Op.String() + k
+	case *ssa.FieldAddr:
+		k := exprKeyD(x.X, d+1)
+		st := derefStruct(x.X.Type())
+		if k == "" || st == nil {
+			return ""
+		}
+		return k + "." + st.Field(x.Field).Name()
+	case *ssa.Field:
+		k := exprKeyD(x.X, d+1)
+		st, _ := x.X.Type().Underlying().(*types.Struct)
+		if k == "" || st == nil {
+			return ""
+		}
+		return k + "." + st.Field(x.Field).Name()
+	case *ssa.IndexAddr:
+		a, b := exprKeyD(x.X, d+1), exprKeyD(x.Index, d+1)
+		if a == "" || b == "" {
+			return ""
+		}
+		return a + "[" + b + "]"
+	case *ssa.BinOp:
+		a, b := exprKeyD(x.X, d+1), exprKeyD(x.Y, d+1)
+		if a == "" || b == "" {
+			return ""
+		}
+		return "(" + a + x.Op.String() + b + ")"
+	case *ssa.Call:
+		if bi, ok := x.Call.Value.(*ssa.Builtin); ok && len(x.Call.Args) == 1 {
+			k := exprKeyD(x.Call.Args[0], d+1)
+			if k == "" {
+				return ""
+			}
+			return bi.Name() + "(" + k + ")"
+		}
+	}
+	return ""
+}
+
+// sameExprV matches values that denote the same simple expression as v.
+func sameExprV(v ssa.Value) VM {
+	k := exprKey(v)
+	return func(x ssa.Value) bool {
+		if stripConv(x) == stripConv(v) {
+			return true
+		}
+		return k != "" && exprKey(x) == k
+	}
+}
